@@ -13,7 +13,8 @@
     AddrBook operators.
 ORG while a PHASE offset is in force: the implemented reading (argument = execution address) is the reference
 (the manual's CAUTION paragraph says load address; see AddrBook.tla OrgWhilePhased and DESIGN.md).
-No verdict on: nested structures; addresses >= 2^30 (TLC integers).
+Structures nest two levels deep (fields of nested structures / union members inside a structure are numbered
+relative to the outermost structure: AddrBook.FieldValue).  No verdict on: addresses >= 2^30 (TLC integers).
 Independent seeded change caught after strengthening: seeded/C10 (ORG no-op test through the load address).
 """
 import os
@@ -115,7 +116,7 @@ def render(beh, dname, obs=None, cpu_stmt=True):
             lines.append("\t%s %d" % (d["res"], st["n"]))
         elif a == "FIELD":
             lines.append("f%d\t%s %d" % (k, d["res"], st["n"]))
-            table.append(("%s_f%d" % (open_structs[-1][0], k), st["val"]))
+            table.append(("%s_f%d" % ("_".join(n for n, _ in open_structs), k), st["val"]))
         elif a == "ORG":
             lines.append("\torg %d" % st["a"])
         elif a == "RORG":
@@ -136,12 +137,16 @@ def render(beh, dname, obs=None, cpu_stmt=True):
             lines.append("\trestore")
         elif a == "STRUCT":
             name = "s%d" % k
+            if st.get("nested"):
+                # a nested structure is itself an element of the enclosing one: its name gets its offset
+                table.append(("%s_%s" % ("_".join(n for n, _ in open_structs), name), st["val"]))
             open_structs.append((name, st["u"]))
             lines.append("%s\t%s" % (name, "union" if st["u"] else "struct"))
         elif a == "ENDSTRUCT":
+            full = "_".join(n for n, _ in open_structs)
             name, u = open_structs.pop()
             lines.append("%s\t%s" % (name, "endunion" if u else "endstruct"))
-            table.append(("%s_len" % name, st["len"]))
+            table.append(("%s_len" % full, st["len"]))
         elif a == "LABEL":
             lines.append("l%d:" % k)
             table.append(("l%d" % k, st["val"]))
